@@ -19,7 +19,7 @@ class C20(Plugin):
     pid = "C20"
     entry = 20
     prop = 20
-    counts = {"quick": 20000, "thorough": 400000}
+    counts = {"quick": 20000, "thorough": 1000000}
     rule = ("every string of length <= 4 (quick) / <= 5 plus length 6 over an 8-symbol sub-alphabet (thorough) over one representative per "
             "character class {letter, digit, '_', '.', '-', ':', '/', '#', space, tab, newline, '[', ']', non-ASCII letter}; plus random "
             "strings of length 5..14 mixing the representatives with exotic whitespace (U+00A0, U+2028, U+001C, U+0085, U+3000), zero-width "
